@@ -10,6 +10,7 @@ import EvyV.Driver.SvgDrv
 import EvyV.Driver.TyDrv
 import EvyV.Driver.LexDrv
 import EvyV.Driver.LayoutDrv
+import EvyV.Driver.PrattDrv
 import EvyV.Gen.Shapes
 /-
 Line protocol driver (core-only, compiled as `lean_exe evyv`).
@@ -64,6 +65,7 @@ def handle (line : String) : String :=
   | "svg" :: rest => SvgDrv.handle rest
   | "ty" :: rest => TyDrv.handle rest
   | "lex" :: rest => LexDrv.handle rest
+  | "pratt" :: rest => PrattDrv.handle rest
   | ["fmtk"] => LayoutDrv.handleK ""
   | ["fmtk", w] => LayoutDrv.handleK w
   | ["fmtm"] => LayoutDrv.handleM ""
